@@ -361,6 +361,59 @@ def nested_skip_section(ctx):
                 break
 
 
+def interp_mixed_cubic_section(ctx):
+    """the conversion error on the INTERPOLATABLE TrueType path: a glyph with a contour of its own plus a component that SCALES a
+    cubic base (15/8, 3/2, mirrored) is decomposed before the curves are converted, so the quadratic splines of the decomposed
+    outline stay within the conversion error (1/1000 em) of the source cubic as placed by the component -- the error is not
+    multiplied by the component's scale.  Masters keep float coordinates: no rounding slack"""
+    import ufo2ft
+    from fontTools.ttLib import TTFont
+    for i in range(ctx.budget(4, 12)):
+        lib = ["ufoLib2", "defcon"][i % 2]
+        sc = [Fr(15, 8), Fr(3, 2), Fr(-15, 8), Fr(7, 4)][(i // 2) % 4]
+        masters = []
+        for k in range(2):
+            d = 12 * k
+            o = [(Fr(100), Fr(0), "curve"), (Fr(230 + d), Fr(-20), "off"), (Fr(380), Fr(120 + d), "off"), (Fr(400 + d), Fr(300), "curve"),
+                 (Fr(390), Fr(470 + d), "off"), (Fr(250 + d), Fr(600), "off"), (Fr(100), Fr(560), "curve"), (Fr(60), Fr(400), "off"), (Fr(40 - d), Fr(200), "off")]
+            masters.append({"glyphs": [
+                {"name": "o", "unicodes": [0x6F], "width": Fr(500), "contours": [o], "components": [], "anchors": []},
+                {"name": "mixed", "unicodes": [0x6D], "width": Fr(1200), "anchors": [],
+                 "contours": [[(Fr(0), Fr(-100), "line"), (Fr(50 + d), Fr(-100), "line"), (Fr(25), Fr(-50), "line")]],
+                 "components": [("o", (sc, Fr(0), Fr(0), abs(sc), Fr(100 if sc > 0 else 1000), Fr(10 + d)))]}],
+                "glyphOrder": ["o", "mixed"], "info": {"unitsPerEm": 1000, "familyName": "F", "styleName": "M%d" % k}})
+        case = {"function": "compileInterpolatableTTFs", "lib": lib, "component_scale": str(sc), "masters": [jsonable(m) for m in masters],
+                "level": "conversion error of a scaled cubic in a mixed glyph"}
+        ctx.count(); ctx.klass("interpolatable mixed glyph, cubic base scaled by %s" % sc); ctx.nontriv(("imc", i, ctx.scale))
+        try:
+            outs = list(ufo2ft.compileInterpolatableTTFs([build_font(m, lib) for m in masters], useProductionNames=False))
+        except Exception as e:
+            ctx.spec_failure(case, "compileInterpolatableTTFs raised %s: %s\n%s" % (type(e).__name__, e, traceback.format_exc()[-1000:]))
+            continue
+        for k, tt in enumerate(outs):
+            polys = flatten_tt(tt, "mixed", steps=200)
+            if polys is None:
+                ctx.spec_failure(dict(case, master=k), "a cubic segment was left in glyf"); break
+            t = [float(v) for v in masters[k]["glyphs"][1]["components"][0][1]]
+            s_ = geom.to_segments(masters[k]["glyphs"][0]["contours"][0])
+            f = lambda p: (t[0] * p[0] + t[2] * p[1] + t[4], t[1] * p[0] + t[3] * p[1] + t[5])
+            cur = f(tuple(map(float, s_[1])))
+            worst = 0.0
+            for sg in s_[2]:
+                if sg[0] == "curve":
+                    c1, c2 = [f(tuple(map(float, p))) for p in sg[1]]
+                    end = f(tuple(map(float, sg[2])))
+                    for j in range(0, 41):
+                        p = cubic_pt(cur, c1, c2, end, j / 40)
+                        worst = max(worst, min(dist_to_polyline(p, poly) for poly in polys))
+                cur = f(tuple(map(float, sg[-1])))
+            if worst > 1.0 + 0.05:
+                ctx.spec_failure(dict(case, master=k, distance=worst),
+                                 "master %d: the quadratic spline of the decomposed glyph is %.3f units from the source cubic as placed by the component (scale %s); "
+                                 "the conversion error is 1.000" % (k, worst, sc))
+                break
+
+
 def interp_flatten_section(ctx):
     """flattenComponents through compileInterpolatableTTFs on a plain LIST of fonts (no designspace) whose sources differ in
     what they hold: a partial source (one base glyph only) listed first / last / absent, next to a full one with a chain
@@ -472,6 +525,7 @@ def cubic_distance_test(ctx, rng):
     unrounded_distance_test(ctx, rng)
     variable_composite_section(ctx)
     nested_skip_section(ctx)
+    interp_mixed_cubic_section(ctx)
     import ufo2ft
     from fontTools.ttLib import TTFont
     for i in range(ctx.budget(12, 80)):
